@@ -105,6 +105,19 @@ def check_build(ctx, spin, L, t, v, kind):
     if True in mats and False in mats:
         ctx.close(f'{tag}.optimized==explicit', maxdiff(mats[True], mats[False]), 1e-11 * sc, 'the two build paths denote different operators', detail)
     ctx.ok(f'{tag}.coefficients-unchanged', np.array_equal(t, t0) and np.array_equal(v, v0), 'coefficient tensors modified', detail)
+    if ctx.cur[1] % 3 == 0 and L <= 5 and np.issubdtype(np.asarray(t).dtype, np.inexact) and t.flags.writeable and v.flags.writeable:
+        # history: the SAME coefficient array objects changed in place, both constructions asked again
+        t *= -0.5
+        v[..., 0] *= 3.0
+        R2 = (refs.spin_molecular_reference if spin else refs.molecular_reference)(t, v)
+        if R2.nnz and abs(R2).max() > 0:
+            for opt in (True, False):
+                if L < (1 if opt else (2 if spin else 4)):
+                    continue
+                H2 = build(t, v, optimize=opt)
+                M2, sp2 = to_dense_or_sparse(H2, dim)
+                ctx.close(f'{tag}.matrix==formula[after-inplace-edit-of-coefficients]', maxdiff(M2, R2 if sp2 else np.asarray(R2.todense())), 1e-11 * max(sc, 3 * sc),
+                          'construction after an in-place change of the coefficient arrays does not follow the current coefficients', detail)
 
 
 def spinless_case(ctx, idx, rng):
